@@ -354,15 +354,22 @@ func runC20Silent(c *fw.Ctx, id, method string) {
 		n = 2
 	}
 	for i := 0; i < n && !c.Violated(); i++ {
-		runC20SilentOnce(c, id, method)
+		// odd attempts: a timeout of one nanosecond - the dial context has expired before connect() is even called, so
+		// the failure deterministically takes the dial context's form (on a loaded machine the 300 ms attempts were
+		// seen to produce only the poller's form)
+		to := 300 * time.Millisecond
+		if i%2 == 1 {
+			to = time.Nanosecond
+		}
+		runC20SilentOnce(c, id, method, to)
 	}
 }
 
-func runC20SilentOnce(c *fw.Ctx, id, method string) {
+func runC20SilentOnce(c *fw.Ctx, id, method string, timeout time.Duration) {
 	resetProcessState()
 	target := netip.AddrFrom4([4]byte{10, 205, byte(40 + c.Worker), 9})
 	params := traceroute.TracerouteParams{Hostname: target.String(), Port: 8443, Protocol: "tcp", MinTTL: 1, MaxTTL: 3, Delay: 5,
-		Timeout: 300 * time.Millisecond, TCPMethod: traceroute.TCPMethod(method), TracerouteQueries: 1, E2eQueries: 0}
+		Timeout: timeout, TCPMethod: traceroute.TCPMethod(method), TracerouteQueries: 1, E2eQueries: 0}
 	env, err := newReqEnv(c, params, target, 8443, false)
 	if err != nil {
 		c.Inconclusive(err.Error())
